@@ -259,6 +259,8 @@ class Flattener(object):
             if x.origin is None:
                 x.origin = name
         holder0 = mk(self.tu, "FunctionDecl", [body], name=self.fn.name)
+        unroll_constant_loops(self.tu, holder0)
+        fold_constant_switches(self.tu, holder0)
         self.inlined.extend(inline_expressions(self.tu, holder0))
         body = holder0.children[0]
         body.parent = None
@@ -489,13 +491,41 @@ def _pure_arg(e):
     return True
 
 
-def _single_return_expr(fn):
+def _single_return_expr(fn, call=None):
     b = _body(fn)
     if b is None:
         return None
     st = [c for c in b.children if c.kind != "NullStmt"]
     if len(st) == 1 and st[0].kind == "ReturnStmt" and st[0].children:
         return st[0].children[0]
+    # `switch (param) { case K: return E; ... default: return E; }` called with a constant argument: the selected return
+    if len(st) == 1 and st[0].kind == "SwitchStmt" and call is not None:
+        sw = st[0]
+        ps = [p.name for p in _params(fn)]
+        sel = sw.children[0].strip(casts=True).path()
+        if sel in ps and ps.index(sel) < len(call.args):
+            v = call.args[ps.index(sel)].intval()
+            bodyc = sw.children[-1]
+            items = bodyc.children if bodyc.kind == "CompoundStmt" else [bodyc]
+            chosen = default = None
+            ok = True
+            for c in items:
+                labels = []
+                while c.kind in ("CaseStmt", "DefaultStmt"):
+                    labels.append(c.children[0].intval() if c.kind == "CaseStmt" else "default")
+                    c = c.children[-1]
+                if c.kind != "ReturnStmt" or not c.children or not labels:
+                    ok = False
+                    break
+                if None in labels:
+                    ok = False
+                    break
+                if v is not None and v in labels:
+                    chosen = c.children[0]
+                if "default" in labels:
+                    default = c.children[0]
+            if ok and v is not None:
+                return chosen if chosen is not None else default
     return None
 
 
@@ -514,7 +544,7 @@ def inline_expressions(tu, root, depth=3):
             callee = tu.functions[x.callee]
             if not _is_static(callee) or callee.name == root.name:
                 continue
-            e = _single_return_expr(callee)
+            e = _single_return_expr(callee, x)
             if e is None:
                 continue
             ps = _params(callee)
@@ -538,8 +568,216 @@ def inline_expressions(tu, root, depth=3):
     return inl
 
 
+def _literal(tu, value, like):
+    return mk(tu, "IntegerLiteral", text=str(value), like=None, value=str(value), type={"qualType": "int"})
+
+
+def _mark_dirty(n):
+    a_ = n
+    while a_ is not None and isinstance(a_, FNode):
+        a_._dirty = True
+        a_ = a_.parent
+
+
+def unroll_constant_loops(tu, root, limit=16):
+    """`for (i = 0; i < K; i++) body` where the body indexes a file-scope constant table with i: replaced by K copies of the
+    body with i replaced by 0..K-1 and table[k] by the k-th initialiser.  K is an integer literal or the table's length."""
+    done = []
+    for loop in [x for x in root.walk() if x.kind == "ForStmt"]:
+        if len(loop.children) < 5 or loop.parent is None:
+            continue
+        init, _cv, cond, inc, body = loop.children[0], loop.children[1], loop.children[2], loop.children[3], loop.children[4]
+        ivar = None
+        i0 = init.strip(casts=True) if init.kind is not None else None
+        if i0 is not None and i0.kind == "BinaryOperator" and i0.opcode == "=" and i0.children[1].intval() == 0:
+            ivar = i0.children[0].path()
+        elif i0 is not None and i0.kind == "DeclStmt" and len(i0.children) == 1 and i0.children[0].children \
+                and i0.children[0].children[-1].intval() == 0:
+            ivar = i0.children[0].name
+        if not ivar or cond.kind is None or inc.kind is None:
+            continue
+        c0 = cond.strip(casts=True)
+        if not (c0.kind == "BinaryOperator" and c0.opcode == "<" and c0.children[0].path() == ivar):
+            continue
+        inc0 = inc.strip(casts=True)
+        if not (inc0.kind == "UnaryOperator" and inc0.opcode == "++" and inc0.children[0].path() == ivar):
+            continue
+        if any(p_ == ivar for x in [body] for p_, n_, rhs, k_ in _stores(x)):
+            continue
+        tables = {}
+        fields = {}
+        local_tables = {}
+        for d in root.walk():
+            if d.kind == "VarDecl" and d.children and d.children[-1].kind == "InitListExpr" and "const" in d.type \
+                    and not any(p_ and p_.split("[")[0].split(".")[0] == d.name for p_, n_, r_, k_ in _stores(root)):
+                local_tables[d.name] = d
+        for x in body.walk():
+            if x.kind == "ArraySubscriptExpr" and x.children[1].strip(casts=True).path() == ivar:
+                base = x.children[0].strip(casts=True)
+                vd = None
+                if base.kind == "DeclRefExpr" and base.ref in tu.vars:
+                    vd = tu.vars[base.ref]
+                elif base.kind == "DeclRefExpr" and base.ref in local_tables:
+                    vd = local_tables[base.ref]
+                if vd is not None:
+                    il = vd.children[-1] if vd.children else None
+                    if il is not None and il.kind == "InitListExpr":
+                        tables[base.ref] = il.children
+                        # element type is an (anonymous) struct declared next to the variable: field order from its RecordDecl
+                        par = vd.parent
+                        recs = [c for c in (par.children if par is not None else []) if c.kind == "RecordDecl"]
+                        if recs:
+                            fields[base.ref] = [f.name for f in recs[-1].children if f.kind == "FieldDecl"]
+        if not tables:
+            continue
+        K = c0.children[1].intval()
+        if K is None:
+            lens = {len(v) for v in tables.values()}
+            rhs_txt = c0.children[1].src.replace(" ", "")
+            bound_ok = c0.children[1].strip(casts=True).kind == "DeclRefExpr" or any(
+                rhs_txt.startswith("sizeof(%s)/sizeof(%s[0])" % (t_, t_)) for t_ in tables)
+            K = list(lens)[0] if len(lens) == 1 and bound_ok else None
+        if K is None or K > limit or any(len(v) < K for v in tables.values()):
+            continue
+        if any(x.kind in ("BreakStmt", "ContinueStmt") for x in body.walk()):
+            continue
+        copies = []
+        for k in range(K):
+            b = clone(body, tu)
+            # table[i].field -> the field's initialiser of element k
+            for x in list(b.walk()):
+                if x.kind == "MemberExpr" and x.children and x.parent is not None:
+                    sub_ = x.children[0].strip(casts=True)
+                    if sub_.kind == "ArraySubscriptExpr" and sub_.children[1].strip(casts=True).path() == ivar:
+                        base = sub_.children[0].strip(casts=True)
+                        if base.kind == "DeclRefExpr" and base.ref in tables and base.ref in fields and x.name in fields[base.ref]:
+                            elem = tables[base.ref][k]
+                            fi = fields[base.ref].index(x.name)
+                            if elem.kind == "InitListExpr" and fi < len(elem.children):
+                                el = clone(elem.children[fi], tu)
+                                el.parent = x.parent
+                                el._text = el.src
+                                j = [q for q, c in enumerate(x.parent.children) if c is x][0]
+                                x.parent.children[j] = el
+                                _mark_dirty(x.parent)
+            for x in list(b.walk()):
+                if x.kind == "ArraySubscriptExpr" and x.children[1].strip(casts=True).path() == ivar:
+                    base = x.children[0].strip(casts=True)
+                    if base.kind == "DeclRefExpr" and base.ref in tables and x.parent is not None:
+                        el = clone(tables[base.ref][k], tu)
+                        el.parent = x.parent
+                        el._text = el.src
+                        j = [q for q, c in enumerate(x.parent.children) if c is x][0]
+                        x.parent.children[j] = el
+                        _mark_dirty(x.parent)
+            for x in list(b.walk()):
+                if x.kind == "DeclRefExpr" and x.ref == ivar and x.parent is not None:
+                    lit = _literal(tu, k, x)
+                    lit.parent = x.parent
+                    j = [q for q, c in enumerate(x.parent.children) if c is x][0]
+                    x.parent.children[j] = lit
+                    _mark_dirty(x.parent)
+            copies.append(b)
+        comp = mk(tu, "CompoundStmt", copies, like=loop)
+        comp._dirty = True
+        comp.parent = loop.parent
+        j = [q for q, c in enumerate(loop.parent.children) if c is loop][0]
+        loop.parent.children[j] = comp
+        done.append(ivar)
+    return done
+
+
+def _stores(node):
+    out = []
+    for n in node.walk():
+        if n.kind == "BinaryOperator" and n.opcode == "=":
+            out.append((n.children[0].path(), n, n.children[1], "="))
+        elif n.kind == "CompoundAssignOperator":
+            out.append((n.children[0].path(), n, n.children[1], n.opcode))
+        elif n.kind == "UnaryOperator" and n.opcode in ("++", "--"):
+            out.append((n.children[0].path(), n, None, n.opcode))
+    return out
+
+
+def fold_constant_switches(tu, root):
+    """`switch (<integer constant>) { case ...}`: replaced by the statements of the selected case (up to its break/return)"""
+    n_f = 0
+    for sw in [x for x in root.walk() if x.kind == "SwitchStmt"]:
+        if sw.parent is None or not sw.children:
+            continue
+        v = sw.children[0].intval()
+        if v is None:
+            continue
+        bodyc = sw.children[-1]
+        items = bodyc.children if bodyc.kind == "CompoundStmt" else [bodyc]
+        # linearise: (labels, statement)
+        seq = []
+        for c in items:
+            labels = []
+            while c.kind in ("CaseStmt", "DefaultStmt"):
+                if c.kind == "CaseStmt":
+                    lv = c.children[0].intval()
+                    if lv is None:
+                        val = c.children[0].d.get("value")
+                        lv = int(val) if val is not None and str(val).lstrip("-").isdigit() else None
+                    labels.append(("case", lv))
+                else:
+                    labels.append(("default", None))
+                c = c.children[-1]
+            seq.append((labels, c))
+        if any(l[0] == "case" and l[1] is None for ls, c in seq for l in ls):
+            continue
+        start = None
+        for i, (ls, c) in enumerate(seq):
+            if ("case", v) in ls:
+                start = i
+        if start is None:
+            for i, (ls, c) in enumerate(seq):
+                if any(l[0] == "default" for l in ls):
+                    start = i
+        chosen = []
+        if start is not None:
+            for ls, c in seq[start:]:
+                if c.kind == "BreakStmt":
+                    break
+                chosen.append(c)
+                if c.kind == "ReturnStmt":
+                    break
+        if any(x.kind == "BreakStmt" for c in chosen for x in c.walk() if not any(
+                a.kind in ("ForStmt", "WhileStmt", "DoStmt", "SwitchStmt") for a in x.ancestors() if a is not sw and any(a is y for y in c.walk()))):
+            continue
+        comp = mk(tu, "CompoundStmt", chosen, like=sw)
+        comp._dirty = True
+        comp.parent = sw.parent
+        j = [q for q, c in enumerate(sw.parent.children) if c is sw][0]
+        sw.parent.children[j] = comp
+        n_f += 1
+    return n_f
+
+
+CANON_OBJ = "hdf5_data_object"
+
+
+def _canonical_object_rename(fn):
+    """{name: CANON_OBJ} when the function has exactly one variable of type `Digital_rf_write_object *` and it is called
+    something else (program normalisation: the rules refer to the writer object by its canonical name)"""
+    objs = [x for x in fn.walk() if x.kind in ("ParmVarDecl", "VarDecl") and x.name
+            and x.type.replace("const ", "").replace(" ", "") in ("Digital_rf_write_object*", "structdigital_rf_write_object*")]
+    names = {x.name for x in objs}
+    all_names = {x.name for x in fn.walk() if x.kind in ("ParmVarDecl", "VarDecl") and x.name}
+    if len(names) == 1 and CANON_OBJ not in all_names:
+        return {list(names)[0]: CANON_OBJ}
+    return {}
+
+
 def flatten(tu, fn):
-    root = clone(fn, tu)
+    ren = _canonical_object_rename(fn)
+    root = clone(fn, tu, None, ren) if ren else clone(fn, tu)
+    if ren:
+        for x in root.walk():
+            if x.kind == "ParmVarDecl" and x.d.get("name") in ren:
+                x.d["name"] = ren[x.d["name"]]
+    unroll_constant_loops(tu, root)
     pre = inline_expressions(tu, root)
     fl = Flattener(tu, root)
     fl.inlined.extend(pre)
